@@ -302,6 +302,28 @@ def main():
                 "why": "app/main.pn imports its sibling util.pn (FACTOR = 3) and lib/tool.pn, which imports ITS sibling util.pn (FACTOR = 2): "
                        "scaled(5) + 7 * FACTOR = 10 + 21 = 31 in every file order; got " + da[:160],
                 "files": dict(dfiles), "order": [dfiles[j][0] for j in o], "harness_request": rq})
+    # ... and through the command line itself (it gathers the compilation units: src/main.rs), with the files on disk: all 24
+    # orders of the four paths
+    import tempfile
+    import shutil
+    penne = build_penne_bin()
+    cdir = tempfile.mkdtemp(prefix="c12cli", dir=CACHE)
+    for nm_, src_ in dfiles:
+        os.makedirs(os.path.dirname(os.path.join(cdir, nm_)), exist_ok=True)
+        open(os.path.join(cdir, nm_), "w").write(src_)
+    for o in itertools.permutations(range(len(dfiles))):
+        pr_ = subprocess.run([penne, "run", "--color=never"] + [dfiles[j][0] for j in o], cwd=cdir, env=env_for_cargo(),
+                             stdout=subprocess.PIPE, stderr=subprocess.PIPE, timeout=300)
+        total += 1
+        out_ = (pr_.stdout + pr_.stderr).decode("utf-8", "replace")
+        dist["directories-command-line:%s" % ("ok" if "Output: 31" in out_ else "other")] += 1
+        if pr_.returncode == 0 and "Output: 31" in out_:
+            agreeing += 1
+        else:
+            rep.violation("directories:command-line:%s" % "".join(map(str, o)), {
+                "why": "`penne run %s`: the same program as above through the command line, expected `Output: 31`; status %d, output ends: %s"
+                       % (" ".join(dfiles[j][0] for j in o), pr_.returncode, out_[-300:]), "files": dict(dfiles)})
+    shutil.rmtree(cdir, ignore_errors=True)
     # named lengths across modules: the constant in one module, a pub structure whose member type names it - directly, inside
     # an array, behind pointers - in a second module, the user in a third; every file order (the order in which the importer
     # types the two imported declarations must follow the dependency, not the command line)
